@@ -4,23 +4,28 @@ from session_common import *
 ID = 'C01'
 COQ_TARGETS = ['Props/Properties_C01.vo']
 PROPS_FILES = ['Props/Properties_C01.v']
-THEOREMS = ['C01_remote_rcpt_needs_relay', 'C01_envelope_is_accepted_only']
+THEOREMS = ['C01_remote_rcpt_needs_relay', 'C01_auth_only_from_backend', 'C01_envelope_is_accepted_only']
 ENGINES = [ENGINE]
 RULE = ('sessions aimed at the relay decision: relayclients / relayclients6 absent, listing the client, listing another network, with a size that is not a '
         'multiple of the record size, with an invalid prefix length, unreadable; IPv4-mapped and IPv6 clients; remote recipients before and after local ones, '
-        'repeated after an error, across RSET and several transactions; plus the general session histories. non-trivial = a remote recipient was attempted '
+        'repeated after an error, across RSET and several transactions; AUTH PLAIN attempts (right and wrong password, malformed, unknown mechanism, backend crash, '
+        'repeated, inside a transaction, with and without a configured backend) mixed with HELO/EHLO/RSET and remote recipients; plus the general session histories. non-trivial = a remote recipient was attempted '
         'and a DATA was accepted, or a hand-off happened; distinct by case text')
 TRUSTED_BASE = TRUSTED_COMMON
 ASSUMPTIONS = ASSUMPTIONS_COMMON + [
     'the relay list lookup itself (check_ipbl_file / ip4_matchnet) is property C16; here its outcome is an oracle, instantiated per configuration',
     'SMTP AUTH and TLS client certificates as further entitlements are not exercised (no backend / no certificate in the harness): partial for those two disjuncts',
 ]
-LEVEL_TEXT = ('Coq theorem for all oracles and all client byte streams: a recipient outside rcpthosts gets 2xx only if the relay-list lookup returned a match '
-              '(> 0); an unreadable or malformed list (< 0) and "no match" never do, because relayclient is set to 2 before the result is inspected and the '
-              'cached decision is 1 only after a positive lookup (invariant Irel); every hand-off envelope consists of accepted recipients only. '
-              'Tied to the binary by whole-program runs with all six kinds of relay list for v4 and v6 clients.')
-LEVEL_NOTE = 'Partial: the AUTH and TLS-certificate entitlements are outside the model (oracle-free configuration); lookup internals are C16.'
-TECHNIQUE = 'Coq invariant proof over the session model (cached relay decision) as part of the simulation; whole-program differential run over relay-list kinds'
+LEVEL_TEXT = ('Coq theorems for all oracles and all client byte streams: a recipient outside rcpthosts gets 2xx only if the relay-list lookup returned a match '
+              '(> 0) or an AUTH succeeded earlier on the same connection (a NAuth note, emitted with the 235 reply, stands before it; neither RSET, HELO/EHLO, '
+              'a failed AUTH nor a new transaction make or unmake it); an unreadable or malformed list (< 0) and "no match" never allow relaying, because '
+              'relayclient is set to 2 before the result is inspected and the cached decision is 1 only after a positive lookup (invariant Irel); an AUTH note '
+              'appears only where a backend is configured and the mechanism handler reported success for that name; every hand-off envelope consists of '
+              'accepted recipients only. Tied to the binary by whole-program runs with all kinds of relay list for v4 and v6 clients and AUTH PLAIN attempts '
+              'against a checkpassword stand-in.')
+LEVEL_NOTE = ('Partial: the TLS client certificate entitlement (tls_verify) is outside the model; multi-line AUTH exchanges (LOGIN, PLAIN without initial '
+              'response) end the modelled session (their logic is property C09); lookup internals are C16.')
+TECHNIQUE = 'Coq invariant proof over the session model (cached relay decision, authentication flag in step with the trace) as part of the simulation; whole-program differential run over relay-list kinds'
 DESIGN_REF = 'DESIGN.md section 5, C01'
 
 
@@ -54,6 +59,10 @@ def literal_session(rng, lip):
 def gen_cases(engine, rng, tier):
     n = 300 if tier == 'quick' else 6000
     out = []
+    for _ in range(n // 2):
+        cfg = 'relay=%s;ip=%s;databytes=0;qq=ok,ok,ok,ok;auth=%s' % (rng.choice(['none', 'none', 'unlisted', 'listed', 'badsize']), rng.choice(['v4', 'v6']),
+                                                                       rng.choice(['1', '1', '1', '0']))
+        out.append(session_gen.case(cfg, session_gen.auth_session(rng)))
     for _ in range(n // 5):
         lip = rng.choice(['2', '25', '25', '125', '250'])
         cfg = 'relay=%s;ip=v4;databytes=0;qq=ok,ok;lip=%s' % (rng.choice(['none', 'none', 'listed', 'unlisted']), lip)
